@@ -10,10 +10,12 @@ import (
 	"io"
 	"math/rand"
 	"os"
+	"path/filepath"
 	"runtime"
 	"strconv"
 	"strings"
 	"sync"
+	"syscall"
 
 	"github.com/git-lfs/git-lfs/v3/lfs"
 	"verif/harness/evid"
@@ -223,6 +225,67 @@ func checkDelivery(r *rand.Rand, in []byte) (class string, v *verdict) {
 	}
 	if ferr == nil && (werr != nil || !samePtr(fp, wp)) {
 		return class, &verdict{"accepted-despite-read-error", fmt.Sprintf("reader failed after %d of %d bytes, decoder returned a pointer (oid %s size %d canonical %v); the complete input decodes to err=%v", at, len(in), fp.Oid, fp.Size, fp.Canonical, werr)}
+	}
+	return class, nil
+}
+
+// checkFileDelivery: the same verdict when the bytes are handed over as a named file — a regular file,
+// a symbolic link to it, or a FIFO (whose stat size says nothing about its content).
+func checkFileDelivery(r *rand.Rand, dir string, seq int, in []byte) (class string, v *verdict) {
+	wp, werr, _ := safeDecode(in)
+	kind := []string{"regular-file", "symlink", "fifo"}[r.Intn(3)]
+	p := filepath.Join(dir, fmt.Sprintf("f%d", seq))
+	defer os.Remove(p)
+	done := make(chan struct{})
+	switch kind {
+	case "regular-file":
+		os.WriteFile(p, in, 0o644)
+		close(done)
+	case "symlink":
+		t := p + ".target"
+		os.WriteFile(t, in, 0o644)
+		defer os.Remove(t)
+		os.Symlink(t, p)
+		close(done)
+	case "fifo":
+		if err := syscall.Mkfifo(p, 0o600); err != nil {
+			return "file-delivery/fifo-unavailable", nil
+		}
+		go func() {
+			defer close(done)
+			f, err := os.OpenFile(p, os.O_WRONLY, 0)
+			if err != nil {
+				return
+			}
+			f.Write(in)
+			f.Close()
+		}()
+	}
+	var fp *lfs.Pointer
+	var ferr error
+	var pan any
+	func() {
+		defer func() {
+			if x := recover(); x != nil {
+				pan = x
+			}
+		}()
+		fp, ferr = lfs.DecodePointerFromFile(p)
+	}()
+	if kind == "fifo" {
+		// unblock the writer if the decoder never opened the FIFO (e.g. it refused by size)
+		if f, err := os.OpenFile(p, os.O_RDONLY|syscall.O_NONBLOCK, 0); err == nil {
+			io.Copy(io.Discard, f)
+			f.Close()
+		}
+		<-done
+	}
+	class = "file-delivery/" + kind
+	if pan != nil {
+		return class, &verdict{"decoder-panic", fmt.Sprint(pan)}
+	}
+	if (ferr == nil) != (werr == nil) || (ferr == nil && !samePtr(fp, wp)) {
+		return class, &verdict{"file-delivery-differs", fmt.Sprintf("whole buffer: err=%v; DecodePointerFromFile(%s): err=%v", werr, kind, ferr)}
 	}
 	return class, nil
 }
@@ -481,8 +544,10 @@ type viol struct {
 
 func main() {
 	run := evid.New("C07", "exploration")
-	run.Rule = "seeded generator: (a) valid pointers (random oid, size edge values up to 2^63-1, 0-10 extensions with distinct ascending priorities) through Encoded()/Encode()/DecodePointer round trip; (b) 1- and 2-edit mutants of canonical pointers (30 mutation operators) and (c) unstructured/dictionary random byte strings <= 2 kB through DecodePointer; oracle = ptrspec canonical formatter + post-conditions; (d) delivery: the same inputs through readers that chunk (bytewise, empty reads, random, two chunks) must give the whole-buffer verdict, and through readers that fail with a non-EOF error after k bytes must never be accepted as anything the complete input does not decode to. A class is (generator kind, mutation operator(s), accepted/rejected); distinct_nontrivial counts classes observed."
+	run.Rule = "seeded generator: (a) valid pointers (random oid, size edge values up to 2^63-1, 0-10 extensions with distinct ascending priorities) through Encoded()/Encode()/DecodePointer round trip; (b) 1- and 2-edit mutants of canonical pointers (30 mutation operators) and (c) unstructured/dictionary random byte strings <= 2 kB through DecodePointer; oracle = ptrspec canonical formatter + post-conditions; (d) delivery: the same inputs through readers that chunk (bytewise, empty reads, random, two chunks) must give the whole-buffer verdict, and through readers that fail with a non-EOF error after k bytes must never be accepted as anything the complete input does not decode to; and through lfs.DecodePointerFromFile on a regular file, a symbolic link and a FIFO. A class is (generator kind, mutation operator(s), accepted/rejected); distinct_nontrivial counts classes observed."
 	run.Assumptions = []string{"valid pointer = size>0, extension priorities distinct and ascending, encoded length < 1024 (docs/spec.md)", "ptrspec (harness/ptrspec) is the specification of the canonical form", "DecodePointer is the decoder under test; size-checked wrappers (FromFile/FromBlob) only restrict its domain"}
+	sbxTmp, _ := os.MkdirTemp("", "verif-c07-")
+	defer os.RemoveAll(sbxTmp)
 	total := run.N(1_000_000, 40_000_000)
 	workers := runtime.NumCPU()
 	per := total / workers
@@ -499,6 +564,9 @@ func main() {
 			r := rand.New(rand.NewSource(run.Seed*1000003 + int64(w)))
 			lc := map[string]int{}
 			ls := map[string]string{}
+			fdir, _ := os.MkdirTemp(sbxTmp, fmt.Sprintf("c07-w%d-", w))
+			defer os.RemoveAll(fdir)
+			fseq := 0
 			var lv []viol
 			var acc, rej int64
 			note := func(class string, in string, v *verdict, ok bool) {
@@ -558,6 +626,14 @@ func main() {
 						in := []byte(m)
 						if r.Intn(4) == 0 {
 							in = []byte(s)
+						}
+						if i%64 == 3 {
+							fseq++
+							fc, fv := checkFileDelivery(r, fdir, fseq, in)
+							lc[fc]++
+							if fv != nil && len(lv) < 50 {
+								lv = append(lv, viol{*fv, fc, string(in)})
+							}
 						}
 						dc, dv := checkDelivery(r, in)
 						lc[dc]++
